@@ -56,6 +56,11 @@ CLAIMED = {
     design='5 C13',
     note='Trusted: z3, canonical stage, the population filters as reference (C12), documented naming conventions. Bounds: 2 simulated individuals (4 for the mixture filter), <=2 observables, <=2 times, compositions of <=2 (3) sub-models. Known finding: covariate model around a pooled dimension.',
     technique='symbolic execution on z3 reals + names-driven specification interpreter + symbolic differentiation + SMT validity queries'),
+ 'C09': dict(
+    text='Bounded symbolic verification of the binding chi owns between the flat parameter vector and the ODE solver: over a stub of myokit.Simulation that returns the uninterpreted solution functional of exactly what it was handed, simulate(p, t) and the sensitivity array are decided equal, entry by entry, to the functional (and its declared partials) with p_i bound to the variable behind the i-th published name, for generated SBML models with every declaration order of 1..3 states, constants, intermediates, derived constants, output selections, renamings, copies and reduced models, and for the 4 library models whose right-hand sides are also decided equal to the documented equations.',
+    design='5 C09',
+    note='Trusted: real myokit model classes / SBML importer; the Simulation stub contract (result depends exactly on the state vector in solver order, the named constants, the protocol and the sensitivity request); z3. The integrator (sundials) is absent in this sandbox and outside the claim.',
+    technique='symbolic execution over an uninterpreted-solver stub + term/SMT equality over enumerated generated SBML programs; expression-tree translation for library equations'),
 }
 
 NOT_APPLICABLE = {
